@@ -159,6 +159,22 @@ def check_isd(isd, doc, src_ids, acc, case, t):
               host = type(anc).__name__ if isinstance(anc, (model.P, model.Rt, model.Rtc, model.Rp, model.Rb)) else None
               anc = anc.parent()
             v("C13.ws.default.collapse", f"inside,host={host}", txt, "no TAB/CR/LF and no two adjacent spaces in default text")
+      if isinstance(e, (model.P, model.Rt, model.Rtc, model.Rp)):
+        # the inline flow of a white-space context (a paragraph without its ruby annotations and delimiters, or one annotation /
+        # delimiter): default spaces collapse across text nodes and vanish at the edges of every line
+        flow = _flow(e)
+        for i, (fk, fs, fpr) in enumerate(flow):
+          if fk != "text" or fpr or not fs:
+            continue
+          prv = flow[i - 1] if i else None
+          nxt = flow[i + 1] if i + 1 < len(flow) else None
+          host = type(e).__name__
+          if fs[0] == " " and (prv is None or prv[0] == "br" or (prv[1] and prv[1][-1] in " \t\r\n")):
+            v("C13.ws.default.edge", f"leading-or-across,host={host}", [prv, fs], "no default space at the start of a line or after white space")
+            break
+          if fs[-1] == " " and (nxt is None or nxt[0] == "br" or (nxt[1] and nxt[1][0] in "\r\n")):
+            v("C13.ws.default.edge", f"trailing,host={host}", [fs, nxt], "no default space at the end of a line")
+            break
       if isinstance(e, model.Br):
         has_content = True
       if isinstance(e, model.Span) and not ch:
@@ -166,6 +182,21 @@ def check_isd(isd, doc, src_ids, acc, case, t):
       for x in reversed(ch):
         stack.append((x, e))
   return has_content
+
+
+def _flow(host):
+  out = []
+
+  def rec(n):
+    for c in n:
+      if isinstance(c, model.Br):
+        out.append(("br", None, None))
+      elif isinstance(c, model.Text):
+        out.append(("text", c.get_text(), c.parent() is not None and c.parent().get_space() is model.WhiteSpaceHandling.PRESERVE))
+      elif not isinstance(c, (model.Rt, model.Rtc, model.Rp)):
+        rec(c)
+  rec(host)
+  return out
 
 
 def _src_ids(doc):
